@@ -191,4 +191,13 @@ var Properties = map[string]*Property{
 		Assumptions: []string{"each symbolic byte is pinned to one class by assumption; the class 'ordinary character' is represented by a solver-chosen lower-case letter when the code hands the string to a native regexp/filepath function (counted as concretization)"},
 		Outside: []string{"HTML views (html/template is trusted)", "Graphviz semantics beyond syntax", "callgrind position compression with symbolic addresses (length comparison of formatted numbers)", "more than 2 metacharacters per string"},
 	},
+	"C14": {
+		ID: "C14",
+		Harnesses: []HarnessSpec{
+			{Pkg: "profile", Fn: "VerifC14BinaryCPU", Solver: "z3", MaxDecisions: 3000, Quick: map[string]int{"c14.periods": 1, "c14.records": 2, "c14.frames": 3}, Thorough: map[string]int{"c14.periods": 3, "c14.records": 3, "c14.frames": 3}, QuickTimeoutS: 400, ThoroughTimeoutS: 1700,
+				What: "parseCPU/cpuProfile/parseCPUSamples/cleanupDuplicateLocations on binary CPU profiles printed from a model: word size 4/8 x little/big endian, 1..records records of 1..frames frames with symbolic counts and addresses (every word symbolic): one sample per record in order, values [count, count*period*1000], leaf address kept and callers moved back by one, the documented signal-frame and duplicate-leaf removal (reference restates the rule), result valid"},
+		},
+		Assumptions: []string{"period enumerated over {10000, 1, 2^19} (count*period with both symbolic is a 64-bit multiplier)", "0 < count < 2^20, addresses > 1 and within the word size", "fewer than 32 samples, so the 'nearly all samples' margin of the signal-frame rule is zero"},
+		Outside: []string{"all text formats (heap, heap_v2, growth, contention, threadz, count profiles, Java heapz/contentionz): their recognition needs regexp/bufio scanning of symbolic text", "the trailing memory map section (empty here)", "unsampling by 1/(1-exp(-size/rate))"},
+	},
 }
